@@ -597,6 +597,17 @@ def fam_order(tier, seed, extra=()):
     out.append(Case("order/and/const_false", PRE + "r := false && tb(2, true); (r, *log)", (False, 0)))
     out.append(Case("order/or/const_true", PRE + "r := true || tb(2, true); (r, *log)", (True, 0)))
     out.append(Case("order/and/const_true", PRE + "r := true && tb(2, false); (r, *log)", (False, 2)))
+    # a constant RIGHT operand never removes the (effectful) left operand
+    out.append(Case("order/and/rhs_const_false", PRE + "r := tb(1, true) && false; (r, *log)", (False, 1)))
+    out.append(Case("order/or/rhs_const_true", PRE + "r := tb(1, false) || true; (r, *log)", (True, 1)))
+    out.append(Case("order/and/rhs_const_true", PRE + "r := tb(1, true) && true; (r, *log)", (True, 1)))
+    out.append(Case("order/or/rhs_const_false", PRE + "r := tb(1, false) || false; (r, *log)", (False, 1)))
+    out.append(Case("order/and/rhs_folded_false", PRE + "v := 0; r := tb(1, true) && v > 0; (r, *log)", (False, 1)))
+    out.append(Case("order/and/rhs_const_false/fn", PRE + "f := () -> int { r := tb(1, true) && false; return *log }; f()", 1))
+    out.append(Case("order/or/rhs_const_true/fn", PRE + "f := () -> int { r := tb(1, false) || true; return *log }; f()", 1))
+    # constant operands never remove an effectful sibling of any operator
+    out.append(Case("order/mul_zero", PRE + "r := t(1) * 0 + 0 * t(2) + (t(3) & 0); (r, *log)", (0, 123)))
+    out.append(Case("order/add_zero", PRE + "r := t(5) + 0 - 0 + t(2) * 1; (r, *log)", (7, 52)))
     # assignment: target, then value
     out.append(Case("order/assign", PRE + "c := mut 0; pick := (k: int) -> mut int { log = *log * 10 + k; return c }; "
                     "r := (pick(1) = t(2)); (r, *c, *log)", (2, 2, 12)))
